@@ -244,9 +244,9 @@ Lemma update_rec_props fuel : forall cs st acc c chain tgt,
 Proof.
   induction fuel as [|fuel IH]; intros cs st acc c chain tgt; simpl.
   - split; [discriminate|intros; discriminate].
-  - destruct (existsb (Nat.eqb c) chain); [split; [discriminate|intros; discriminate]|].
+  - destruct (existsb (key_eqb (chain_key cs c tgt)) chain); [split; [discriminate|intros; discriminate]|].
     set (tgt' := if is_time cs c then next_time cs st c else tgt).
-    set (rec := fun c' t' => update_rec fuel cs st acc c' (c :: chain) t').
+    set (rec := fun c' t' => update_rec fuel cs st acc c' (chain_key cs c tgt :: chain) t').
     set (fin := fun _ : unit => if is_time cs c
                   then let '(st', acc', e) := do_update cs st c acc in UUpdated c st' acc' e else UNone).
     (* the dependencies of [c] are served once the loop falls through *)
@@ -260,7 +260,7 @@ Proof.
       - intros Tp.
         destruct (find_deps_complete cs st c tgt' k inp lt Hk Hr (or_introl Tp)) as [l' [Hin Hl]].
         destruct (Hall _ _ Hin) as [_ Hn]. unfold rec in Hn.
-        destruct (IH cs st acc (fst (i_src inp)) (c :: chain) l') as [IHa _].
+        destruct (IH cs st acc (fst (i_src inp)) (chain_key cs c tgt :: chain) l') as [IHa _].
         destruct (IHa Hn) as [_ Hs]. eapply servedn_down; [exact Hl|exact Hs]. }
     split.
     + intros H. destruct (dep_loop_inv cs rec fin _ _ H) as [[Hf Hall]|[o [lt [Hin Hc]]]].
@@ -269,7 +269,7 @@ Proof.
         -- split; [reflexivity|]. specialize (Served Hall). unfold tgt' in Served. exact Served.
       * destruct Hc as [[Ti Hr]|[Tp [Hr Hne]]]; [|congruence].
         unfold rec in Hr. symmetry in Hr.
-        destruct (IH cs st acc (fst o) (c :: chain) 0) as [IHa _].
+        destruct (IH cs st acc (fst o) (chain_key cs c tgt :: chain) 0) as [IHa _].
         destruct (IHa Hr) as [Hf _]. congruence.
     + intros u st' acc' e H.
       destruct (dep_loop_inv cs rec fin _ _ H) as [[Hf Hall]|[o [lt [Hin Hc]]]].
@@ -280,11 +280,11 @@ Proof.
       * destruct (find_deps_sound _ _ _ _ _ _ Hin) as [k [inp [Hk [Ho [Hr Hlag]]]]].
         assert (Tg : tgt' = target_of cs st c tgt) by reflexivity.
         destruct Hc as [[Ti Hrec]|[Tp [Hrec _]]]; unfold rec in Hrec; symmetry in Hrec.
-        -- destruct (IH cs st acc (fst o) (c :: chain) 0) as [_ IHb].
+        -- destruct (IH cs st acc (fst o) (chain_key cs c tgt :: chain) 0) as [_ IHb].
            destruct (IHb _ _ _ _ Hrec) as [Tu [Du [Su Lu]]].
            split; [exact Tu|]. split; [exact Du|]. split; [apply servedn_S; exact Su|].
            subst o. eapply lp_time; eauto.
-        -- destruct (IH cs st acc (fst o) (c :: chain) lt) as [_ IHb].
+        -- destruct (IH cs st acc (fst o) (chain_key cs c tgt :: chain) lt) as [_ IHb].
            destruct (IHb _ _ _ _ Hrec) as [Tu [Du [Su Lu]]].
            split; [exact Tu|]. split; [exact Du|]. split; [apply servedn_S; exact Su|].
            subst o. eapply lp_pull; eauto.
@@ -701,7 +701,7 @@ Proof.
   induction fuel as [|fuel IH]; intros st acc o st' acc' Hinv H; cbn [run_loop] in H.
   - inversion H; subst. split; discriminate.
   - destruct (pick_min cs st 0 cs None) as [c|]; [|inversion H; subst; split; discriminate].
-    destruct (update_rec (S (length cs)) cs st acc c [] 0) as [u st1 acc1 e1| | |] eqn:U;
+    destruct (update_rec (rec_fuel cs) cs st acc c [] 0) as [u st1 acc1 e1| | |] eqn:U;
       try (inversion H; subst; split; discriminate).
     destruct (update_rec_ok cs W _ _ _ _ _ _ _ _ _ _ Hinv U) as [_ [_ [[G1 G2] [I1 _]]]].
     destruct e1 as [[| |]|]; try congruence.
@@ -778,4 +778,232 @@ Proof.
   - intros c. specialize (Hc c). unfold comp_wf_b in Hc. apply andb_prop in Hc. destruct Hc as [_ Hc].
     unfold steps_pos. destruct (c_kind (getc cs c)); [|exact I].
     rewrite forallb_forall in Hc. apply Forall_forall. intros s Hs. apply Z.ltb_lt. apply Hc; exact Hs.
+Qed.
+
+(** ** the component the run loop picks: the first least-advanced time component *)
+Definition least_first (cs : composition) (st : state) (n : nat) (c : nat) : Prop :=
+  (c < n)%nat /\ is_time cs c = true /\
+  forall c', (c' < n)%nat -> is_time cs c' = true ->
+    s_time st c <= s_time st c' /\ (s_time st c' = s_time st c -> (c <= c')%nat).
+
+Lemma pick_min_spec_gen cs st : forall l k best,
+  (forall j, (j < length l)%nat -> c_kind (nth j l dummy_comp) = c_kind (getc cs (k + j))) ->
+  (match best with None => forall c', (c' < k)%nat -> is_time cs c' = false | Some b => least_first cs st k b end) ->
+  match pick_min cs st k l best with
+  | None => forall c', (c' < k + length l)%nat -> is_time cs c' = false
+  | Some b => least_first cs st (k + length l) b
+  end.
+Proof.
+  induction l as [|x l IH]; intros k best Hl Hb; simpl.
+  - rewrite Nat.add_0_r. exact Hb.
+  - replace (k + S (length l))%nat with (S k + length l)%nat by lia.
+    assert (Hx : c_kind x = c_kind (getc cs k)).
+    { specialize (Hl O (Nat.lt_0_succ _)). simpl in Hl. now rewrite Nat.add_0_r in Hl. }
+    apply IH.
+    + intros j Hj. specialize (Hl (S j) (proj1 (Nat.succ_lt_mono _ _) Hj)). simpl in Hl.
+      now replace (S k + j)%nat with (k + S j)%nat by lia.
+    + assert (Tk : is_time cs k = match c_kind x with KTime _ _ _ => true | KPull => false end).
+      { unfold is_time. now rewrite <- Hx. }
+      destruct (c_kind x) as [s0 steps ip|].
+      * destruct best as [b|].
+        -- destruct Hb as [Hb1 [Hb2 Hb3]].
+           destruct (s_time st k <? s_time st b) eqn:E.
+           ++ apply Z.ltb_lt in E. split; [lia|]. split; [exact Tk|].
+              intros c' Hc' Tc'. destruct (Nat.eq_dec c' k) as [->|Ne]; [split; [lia|intros; lia]|].
+              destruct (Hb3 c' ltac:(lia) Tc') as [H1 H2]. split; [lia|intros; lia].
+           ++ apply Z.ltb_ge in E. split; [lia|]. split; [exact Hb2|].
+              intros c' Hc' Tc'. destruct (Nat.eq_dec c' k) as [->|Ne]; [split; [lia|intros; lia]|].
+              apply Hb3; [lia|exact Tc'].
+        -- split; [lia|]. split; [exact Tk|].
+           intros c' Hc' Tc'. destruct (Nat.eq_dec c' k) as [->|Ne]; [split; [lia|intros; lia]|].
+           rewrite Hb in Tc' by lia. discriminate.
+      * destruct best as [b|].
+        -- destruct Hb as [Hb1 [Hb2 Hb3]]. split; [lia|]. split; [exact Hb2|].
+           intros c' Hc' Tc'. destruct (Nat.eq_dec c' k) as [->|Ne]; [congruence|]. apply Hb3; [lia|exact Tc'].
+        -- intros c' Hc'. destruct (Nat.eq_dec c' k) as [->|Ne]; [exact Tk|]. apply Hb; lia.
+Qed.
+
+Lemma pick_min_spec cs st c :
+  pick_min cs st O cs None = Some c -> least_first cs st (length cs) c.
+Proof.
+  intros H.
+  pose proof (pick_min_spec_gen cs st cs O None) as G. rewrite H in G. simpl in G. apply G.
+  - intros j Hj. reflexivity.
+  - intros c' Hc'. lia.
+Qed.
+
+(** ** the run loop: where it stops, when it updates *)
+
+Lemma any_running_false st endt : forall l k,
+  any_running st k l endt = false ->
+  forall j x, nth_error l j = Some x -> (exists s steps ip, c_kind x = KTime s steps ip) -> endt <= s_time st (k + j).
+Proof.
+  induction l as [|y l IH]; intros k H j x Hj Hx; [destruct j; discriminate|].
+  simpl in H. apply orb_false_elim in H. destruct H as [H1 H2].
+  destruct j as [|j]; simpl in Hj.
+  - inversion Hj; subst y. destruct Hx as [s [steps [ip Hx]]]. rewrite Hx in H1.
+    rewrite Nat.add_0_r. apply Z.ltb_ge. exact H1.
+  - replace (k + S j)%nat with (S k + j)%nat by lia. eapply IH; eauto.
+Qed.
+
+Lemma any_running_true st endt : forall l k,
+  any_running st k l endt = true ->
+  exists j x, nth_error l j = Some x /\ (exists s steps ip, c_kind x = KTime s steps ip) /\ s_time st (k + j) < endt.
+Proof.
+  induction l as [|y l IH]; intros k H; [discriminate|].
+  simpl in H. apply orb_true_elim in H. destruct H as [H|H].
+  - exists O, y. split; [reflexivity|]. destruct (c_kind y) as [s steps ip|]; [|discriminate].
+    split; [eauto|]. rewrite Nat.add_0_r. apply Z.ltb_lt. exact H.
+  - destruct (IH (S k) H) as [j [x [Hj [Hx Ht]]]]. exists (S j), x. split; [exact Hj|]. split; [exact Hx|].
+    now replace (k + S j)%nat with (S k + j)%nat by lia.
+Qed.
+
+Lemma is_time_kind cs c : is_time cs c = true -> exists s steps ip, c_kind (getc cs c) = KTime s steps ip.
+Proof. unfold is_time. destruct (c_kind (getc cs c)); [eauto|discriminate]. Qed.
+
+(** C03_reaches_end *)
+Lemma run_loop_reaches_end cs endt fuel : forall st acc st' acc',
+  run_loop fuel cs endt st acc = (OOk, st', acc') ->
+  forall c, is_time cs c = true -> endt <= s_time st' c.
+Proof.
+  induction fuel as [|fuel IH]; intros st acc st' acc' H c Tc; cbn [run_loop] in H; [discriminate|].
+  destruct (pick_min cs st 0 cs None) as [c0|] eqn:PM.
+  - destruct (update_rec (rec_fuel cs) cs st acc c0 [] 0) as [u st1 acc1 e1| | |]; try discriminate.
+    destruct e1 as [[| |]|]; try discriminate.
+    destruct (any_running st1 0 cs endt) eqn:AR; [eapply IH; eauto|].
+    inversion H; subst st' acc'.
+    destruct (is_time_kind cs c Tc) as [s [steps [ip K]]].
+    assert (Lc : (c < length cs)%nat).
+    { destruct (le_lt_dec (length cs) c) as [Hge|]; [|assumption].
+      unfold getc in K. rewrite nth_overflow in K by exact Hge. discriminate. }
+    destruct (nth_error cs c) as [x|] eqn:E; [|apply nth_error_None in E; lia].
+    pose proof (any_running_false st1 endt cs O AR c x E) as G. simpl in G. apply G.
+    unfold getc in K. rewrite (nth_error_nth _ _ _ E) in K. eauto.
+  - (* no time component at all *)
+    pose proof (pick_min_spec_gen cs st cs O None) as G. rewrite PM in G. simpl in G.
+    assert (Hn : forall c', (c' < length cs)%nat -> is_time cs c' = false).
+    { apply G; [intros; reflexivity|intros; lia]. }
+    destruct (le_lt_dec (length cs) c) as [Hge|Hlt].
+    + unfold is_time, getc in Tc. rewrite nth_overflow in Tc by exact Hge. discriminate.
+    + rewrite (Hn c Hlt) in Tc. discriminate.
+Qed.
+
+(** the states in which the loop performs an update, with the updated component (mirror of [run_loop]) *)
+Fixpoint run_states (fuel : nat) (cs : composition) (endt : Z) (st : state) (acc : list ev) : list (state * nat * state) :=
+  match fuel with
+  | O => []
+  | S fuel' =>
+      match pick_min cs st O cs None with
+      | None => []
+      | Some c =>
+          match update_rec (rec_fuel cs) cs st acc c [] 0 with
+          | UUpdated u st' acc' None =>
+              (st, u, st') :: (if any_running st' O cs endt then run_states fuel' cs endt st' acc' else [])
+          | UUpdated u st' acc' (Some _) => [(st, u, st')]
+          | _ => []
+          end
+      end
+  end.
+
+Lemma last_default_irrelevant {A} (l : list A) x d1 d2 : last (x :: l) d1 = last (x :: l) d2.
+Proof. revert x; induction l as [|y l IH]; intros x; [reflexivity|]. cbn [last]. apply IH. Qed.
+
+(** [run_loop]'s final state is the state after the last recorded update *)
+Lemma run_loop_states_last cs endt fuel : forall st acc o st' acc',
+  run_loop fuel cs endt st acc = (o, st', acc') ->
+  st' = last (map snd (run_states fuel cs endt st acc)) st.
+Proof.
+  induction fuel as [|fuel IH]; intros st acc o st' acc' H; cbn [run_loop run_states] in *.
+  - inversion H; reflexivity.
+  - destruct (pick_min cs st 0 cs None) as [c0|]; [|inversion H; reflexivity].
+    destruct (update_rec (rec_fuel cs) cs st acc c0 [] 0) as [u st1 acc1 e1| | |]; try (inversion H; reflexivity).
+    destruct e1 as [[| |]|]; try (inversion H; reflexivity).
+    destruct (any_running st1 0 cs endt) eqn:AR; [|inversion H; reflexivity].
+    rewrite (IH _ _ _ _ _ H). cbn [map snd last].
+    destruct (run_states fuel cs endt st1 acc1) as [|y ys]; [reflexivity|].
+    cbn [map last]. apply last_default_irrelevant.
+Qed.
+
+Definition update_fact (cs : composition) (x : state * nat * state) : Prop :=
+  let '(s, u, s') := x in
+  Inv cs s /\
+  (exists c0, least_first cs s (length cs) c0 /\ lagpath cs s c0 0 u) /\
+  servedn (rec_fuel cs) cs s u (next_time cs s u) /\
+  s_time s' u = next_time cs s u /\ s_time s u < s_time s' u /\
+  (forall x, x <> u -> s_time s' x = s_time s x).
+
+(** every update of a run (C02_selection, C01_available, C03_monotone in one statement) *)
+Lemma run_states_all cs (W : wf cs) endt fuel : forall st acc,
+  Inv cs st -> Forall (update_fact cs) (run_states fuel cs endt st acc).
+Proof.
+  induction fuel as [|fuel IH]; intros st acc Hinv; cbn [run_states]; [constructor|].
+  destruct (pick_min cs st 0 cs None) as [c0|] eqn:PM; [|constructor].
+  destruct (update_rec (rec_fuel cs) cs st acc c0 [] 0) as [u st1 acc1 e1| | |] eqn:U; try constructor.
+  destruct (update_rec_ok cs W _ _ _ _ _ _ _ _ _ _ Hinv U) as [Su [Lu [G [I1 [T1 T2]]]]].
+  assert (Tu : is_time cs u = true).
+  { destruct (update_rec_props (rec_fuel cs) cs st acc c0 [] 0) as [_ HB]. destruct (HB _ _ _ _ U) as [Tu _]. exact Tu. }
+  assert (F : update_fact cs (st, u, st1)).
+  { unfold update_fact. split; [exact Hinv|]. split; [exists c0; split; [apply pick_min_spec; exact PM|exact Lu]|].
+    split; [exact Su|]. split; [exact T1|]. split; [rewrite T1; apply next_time_gt; assumption|exact T2]. }
+  destruct e1 as [e1|].
+  - constructor; [exact F|constructor].
+  - constructor; [exact F|]. destruct (any_running st1 0 cs endt); [apply IH; exact I1|constructor].
+Qed.
+
+Lemma run_states_running cs endt fuel : forall st acc,
+  any_running st O cs endt = true ->
+  Forall (fun x => any_running (fst (fst x)) O cs endt = true) (run_states fuel cs endt st acc).
+Proof.
+  induction fuel as [|fuel IH]; intros st acc Hr; cbn [run_states]; [constructor|].
+  destruct (pick_min cs st 0 cs None) as [c0|]; [|constructor].
+  destruct (update_rec (rec_fuel cs) cs st acc c0 [] 0) as [u st1 acc1 e1| | |]; try constructor.
+  destruct e1 as [e1|]; [constructor; [exact Hr|constructor]|].
+  constructor; [exact Hr|]. destruct (any_running st1 0 cs endt) eqn:AR; [apply IH; exact AR|constructor].
+Qed.
+
+(** C03_no_late_update: every update but the first one of the do-while loop starts in a state in which
+    some time component has not reached the end time *)
+Lemma run_states_tail_running cs endt fuel st acc x rest :
+  run_states fuel cs endt st acc = x :: rest ->
+  Forall (fun y => any_running (fst (fst y)) O cs endt = true) rest.
+Proof.
+  destruct fuel as [|fuel]; cbn [run_states]; [discriminate|].
+  destruct (pick_min cs st 0 cs None) as [c0|]; [|discriminate].
+  destruct (update_rec (rec_fuel cs) cs st acc c0 [] 0) as [u st1 acc1 e1| | |]; try discriminate.
+  destruct e1 as [e1|]; intros H; inversion H; subst; [constructor|].
+  destruct (any_running st1 0 cs endt) eqn:AR; [apply run_states_running; exact AR|constructor].
+Qed.
+
+Lemma min_start_attained cs : forall m, min_start cs = Some m ->
+  exists j x, nth_error cs j = Some x /\ start_of (c_kind x) = Some m.
+Proof.
+  induction cs as [|c cs IH]; intros m H; [discriminate|]. simpl in H.
+  destruct (start_of (c_kind c)) as [s|] eqn:Es, (min_start cs) as [m0|] eqn:E; try discriminate.
+  - inversion H. destruct (Z.min_spec s m0) as [[_ M]|[_ M]]; rewrite M.
+    + exists O, c. split; [reflexivity|exact Es].
+    + destruct (IH m0 eq_refl) as [j [x [Hj Hx]]]. exists (S j), x. auto.
+  - inversion H; subst. exists O, c. split; [reflexivity|exact Es].
+  - inversion H; subst. destruct (IH m eq_refl) as [j [x [Hj Hx]]]. exists (S j), x. auto.
+Qed.
+
+Lemma any_running_intro st endt : forall l k j x,
+  nth_error l j = Some x -> (exists s steps ip, c_kind x = KTime s steps ip) -> s_time st (k + j) < endt ->
+  any_running st k l endt = true.
+Proof.
+  induction l as [|y l IH]; intros k j x Hj Hx Ht; [destruct j; discriminate|].
+  simpl. destruct j as [|j]; simpl in Hj.
+  - inversion Hj; subst y. destruct Hx as [s [steps [ip Hx]]]. rewrite Hx. rewrite Nat.add_0_r in Ht.
+    apply orb_true_intro. left. apply Z.ltb_lt. exact Ht.
+  - apply orb_true_intro. right. eapply IH; eauto. now replace (S k + j)%nat with (k + S j)%nat by lia.
+Qed.
+
+(** for an end time after the composition's start time the first update is not late either *)
+Lemma init_running cs endt m :
+  min_start cs = Some m -> m < endt -> any_running (init_state cs) O cs endt = true.
+Proof.
+  intros Hm Hlt. destruct (min_start_attained cs m Hm) as [j [x [Hj Hx]]].
+  eapply any_running_intro; [exact Hj| |].
+  - destruct (c_kind x) as [s steps ip|]; [eauto|discriminate].
+  - simpl. unfold getc. rewrite (nth_error_nth _ _ _ Hj).
+    destruct (c_kind x) as [s steps ip|]; [|discriminate]. simpl in Hx. inversion Hx; subst. exact Hlt.
 Qed.
